@@ -39,6 +39,23 @@ impl<'a> ExpressionReducer for UndefinedFunctionReducer<'a> {
                 name,
                 self.visit_expressions(args)?,
             )),
+            Expression::Parenthesis(child) => {
+                let mapped_child = self.visit_expression_pos(*child)?;
+                Ok(Expression::Parenthesis(Box::new(mapped_child)))
+            }
+            Expression::ArrayElement(name, indices, element_type) => Ok(Expression::ArrayElement(
+                name,
+                self.visit_expressions(indices)?,
+                element_type,
+            )),
+            Expression::Property(left_side, property_name, element_type) => {
+                let mapped_left_side = self.visit_expression(*left_side)?;
+                Ok(Expression::Property(
+                    Box::new(mapped_left_side),
+                    property_name,
+                    element_type,
+                ))
+            }
             _ => Ok(expression),
         }
     }
